@@ -1,6 +1,9 @@
 """C14 — LinearLeastSquares returns the documented minimiser whatever the solver.
 
-correspond  (model = lean/SigpyVerif/Model/C14.lean + the generated Gen/C14Select.lean)
+translate   Gen/C14Select.lean (`_get_alg`) and Gen/C14Setup.lean (the four `_get_<Solver>` set-ups: the arguments
+            handed to the solver classes as Lean terms with the source's branch structure) are regenerated
+            from sigpy/app.py by harness/translate/gen_c14.py; the theorems are about these definitions
+correspond  (model = the generated definitions, executed over exact rationals by the driver)
   sel     full cross product of options on the real constructor vs the decision table generated from
           `_get_alg` (which solver class is built / ValueError)
   setup   the real set-ups probed from outside: the solver classes and MaxEig in `sigpy.app` are
@@ -28,12 +31,17 @@ PROPERTY = "C14"
 LEAN_MODULES = ["SigpyVerif.Props.C14"]
 THEOREMS = ["SigpyVerif.C14." + t for t in [
     "select_default", "select_named", "rejects_iff", "select_total",
-    "obj_expand", "cgSys_cgRhs_eq_normal", "cg_normal_eq", "cg_unique_minimiser",
-    "gm_gradient", "gmEigOp_eq_hessian", "gm_fixed_point_iff_minimiser",
+    "obj_expand", "cgArgs_sys", "cgArgs_rhs", "cgSys_cgRhs_eq_normal", "lin_zero_of_quad_nonneg", "cg_normal_eq",
+    "cg_unique_minimiser",
+    "gm_gradient", "gmArgs_eig", "gmArgs_alpha", "gmEigOp_eq_hessian", "gm_fixed_point_iff_minimiser",
     "userTree_isProx", "l2reg_is_prox", "data_conj_biconj", "proxfc_data_is_prox", "data_dual_fixed",
-    "conj_fixed_point", "kkt_is_minimiser", "primal_fixed_noG", "primal_fixed_G",
-    "pdhg_fixed_point_kkt_noG", "pdhg_fixed_point_kkt_G",
-    "admmV_fixed", "admm_fixed_point_kkt_noG", "admm_fixed_point_kkt_G",
+    "conj_fixed_point", "kkt_is_minimiser",
+    "pdhgArgs_parts_noG", "pdhgArgs_parts_G", "pdhgArgs_steps", "primal_eval_noG", "primal_eval_G", "scale_help",
+    "primal_fixed_noG", "primal_fixed_G", "pdhg_fixed_point_kkt_noG", "pdhg_fixed_point_kkt_G",
+    "admmV_fixed", "admmArgs_noG", "admmArgs_G", "admm_fixed_point_kkt_noG", "admm_fixed_point_kkt_G",
+    "hessian_quad", "gm_convex_grad", "default_steps_gm", "pdhgArgs_eig_noG", "pdhgArgs_eig_G",
+    "default_steps_pdhg_primal_noG", "default_steps_pdhg_primal_G", "default_steps_pdhg_dual_noG",
+    "default_steps_pdhg_dual_G", "default_steps",
 ]]
 
 SOLVERS = ["ConjugateGradient", "GradientMethod", "PrimalDualHybridGradient", "ADMM"]
@@ -41,7 +49,7 @@ SHORT = {"ConjugateGradient": "cg", "GradientMethod": "gm", "PrimalDualHybridGra
 
 
 def translate(ctx):
-    G_.regenerate(ctx, ["C14Select"])
+    G_.regenerate(ctx, ["C14Select", "C14Setup"])
 
 
 # ---- rationals -----------------------------------------------------------------------------------
@@ -452,7 +460,11 @@ def setup_check(ctx, c, rng):
                 gi = a.alg.gradf(fl(x).reshape(b.xs))
                 if not close(gi, gm):
                     mism.append("gradf(%s): impl %s model %s" % ([float(t) for t in x], np.ravel(gi).tolist(), [float(t) for t in gm]))
+            if (r["side"] == "primal") != (c["alpha"] is None) or (c["alpha"] is not None and me):
+                mism.append("MaxEig: impl ran it %d times (alpha=%s), model side=%s" % (len(me), c["alpha"], r["side"]))
             if c["alpha"] is None:
+                if len(pvecs(r["E"])) != len(Eimpl):
+                    mism.append("operator given to MaxEig acts on dimension %d, model %d" % (len(Eimpl), len(pvecs(r["E"]))))
                 for j, (ci, cm) in enumerate(zip(Eimpl, pvecs(r["E"]))):
                     if not close(ci, cm):
                         mism.append("operator given to MaxEig, column %d: impl %s model %s" % (j, ci.tolist(), [float(t) for t in cm]))
@@ -498,6 +510,8 @@ def setup_check(ctx, c, rng):
                 mism.append("gamma_primal: impl %r model %s" % (a.alg.gamma_primal, r["gp"]))
             if not close([a.alg.gamma_dual], [Fr(r["gd"])]):
                 mism.append("gamma_dual: impl %r model %s" % (a.alg.gamma_dual, r["gd"]))
+            if Eimpl is None and (me or r["side"] != "none"):
+                mism.append("MaxEig: impl ran it %d times with tau and sigma given, model side=%s" % (len(me), r["side"]))
             if Eimpl is not None:
                 Em = pvecs(r["E"])
                 if len(Em) != len(Eimpl):
@@ -516,10 +530,18 @@ def setup_check(ctx, c, rng):
         else:  # admm
             q = n if Gd is None else p
             px, pv, pu = rprobes(rng, 3, n), rprobes(rng, 3, q), rprobes(rng, 3, q)
-            r = kvs(ctx.driver(["C14 admm-setup %s rho=%s px=%s pv=%s pu=%s" % (inst, c["rho"], fvecs(px), fvecs(pv), fvecs(pu))])[0])
+            alg = a.alg
+            xinit = [Fr(float(t)) for t in np.ravel(alg.x)]
+            r = kvs(ctx.driver(["C14 admm-setup %s rho=%s px=%s pv=%s pu=%s x0=%s" % (
+                inst, c["rho"], fvecs(px), fvecs(pv), fvecs(pu), fvec(xinit))])[0])
             if not r:
                 return ["model error"]
-            alg = a.alg
+            if not close(alg.z, pvec(r["v00"])):
+                mism.append("ADMM initial v: impl %s model %s" % (np.ravel(alg.z).tolist(), [float(t) for t in pvec(r["v00"])]))
+            if not np.all(np.asarray(alg.u) == 0):
+                mism.append("ADMM initial u is not zero")
+            if np.shares_memory(alg.z, alg.x):
+                mism.append("ADMM initial v shares memory with x")
             for i, (x, v, u) in enumerate(zip(px, pv, pu)):
                 alg.x[...] = fl(x).reshape(alg.x.shape)
                 alg.z[...] = fl(v).reshape(alg.z.shape)
